@@ -95,6 +95,38 @@ def failures(pid, inst, r):
     return bad
 
 
+def crowded_instance(rng):
+    """A search that needs more accepted steps than the network has nodes (seeded C08h: an iteration limit of network.size()):
+    two or three trips each needing k coupled vehicles, one slot with k tracks after them, a maximal distance below a day's
+    mileage — the start solution leaves most vehicles unmaintained and SpawnVehicleForMaintenance repairs them one by one."""
+    k = rng.choice([8, 10, 12])
+    dist = rng.choice([20000, 30000])
+    ntrips = rng.choice([2, 2, 3])
+    t0 = 5 * 3600
+    deps = []
+    for j in range(ntrips):
+        r = "rAB" if j % 2 == 0 else "rBA"
+        deps.append({"id": "d%d" % j, "route": r, "segments": [{"id": "d%d_s" % j, "routeSegment": r + "_s",
+                     "departure": instgen.iso(t0 + j * 3600), "passengers": 100 * k, "seated": rng.choice([0, 100 * k])}]})
+    end_loc = "A" if ntrips % 2 == 0 else "B"
+    st = t0 + (ntrips - 1) * 3600 + 1800 + rng.choice([300, 900])
+    return {"vehicleTypes": [{"id": "T", "capacity": 100, "seats": 100, "maximalFormationCount": k}],
+            "locations": [{"id": "A"}, {"id": "B"}],
+            "depots": [{"id": "dep_A", "location": "A", "capacity": 1000, "allowedTypes": [{"vehicleType": "T", "capacity": 1000}]}],
+            "routes": [{"id": "rAB", "vehicleType": "T", "segments": [{"id": "rAB_s", "order": 0, "origin": "A", "destination": "B",
+                                                                       "distance": dist, "duration": 1800}]},
+                       {"id": "rBA", "vehicleType": "T", "segments": [{"id": "rBA_s", "order": 0, "origin": "B", "destination": "A",
+                                                                       "distance": dist, "duration": 1800}]}],
+            "departures": deps,
+            "maintenanceSlots": [{"id": "m1", "location": end_loc, "start": instgen.iso(st), "end": instgen.iso(st + 600),
+                                  "trackCount": k}],
+            "deadHeadTrips": {"indices": ["A", "B"], "durations": [[0, 1800], [1800, 0]], "distances": [[0, dist], [dist, 0]]},
+            "parameters": {"forbidDeadHeadTrips": False, "dayLimitThreshold": 0,
+                           "shunting": {"minimalDuration": 120, "deadHeadTripDuration": 300},
+                           "maintenance": {"maximalDistance": dist * ntrips - rng.choice([1, 10000])},
+                           "costs": {"staff": 100, "serviceTrip": 50, "maintenance": 0, "deadHeadTrip": 500, "idle": 20}}}
+
+
 def main(tier, seed):
     t0 = time.time()
     proof = lib.check_property_file(PID)
@@ -109,6 +141,8 @@ def main(tier, seed):
                                                                "depots": rng.choice(["ample", "ample", "absent", "scarce"]),
                                                                "nlocs": rng.choice([3, 4]),
                                                                "ndeps": rng.choice([3, 4, 5, 6])}) for _ in range(n)]
+    crng = random.Random(seed * 31 + 808)
+    insts += [crowded_instance(crng) for _ in range(4 if tier == "quick" else 60)]
     results = lib.pmap(run_one, [(d, k, inst) for k, inst in enumerate(insts)])
     nsteps = sum(max(0, len(r["lines"].get("TRAJ", [])) - 1) for r in results)
     for r in results:
